@@ -203,6 +203,14 @@ Definition rule_sem (env : enum_env) (d : prop) (fv : fvalue) : bool :=
       (if req then negb (match vs with [] => true | _ => false end) else true)
       && match r with Some r => arr_rule_ok r vs | None => true end
       && forallb (ty_ok env t) vs
+  | PMap r t, FMap kvs =>
+      (* the map field itself carries no key annotation: only an explicit required counts *)
+      (if p_req d then negb (match kvs with [] => true | _ => false end) else true)
+      && match r with
+         | Some r => opt_leN (mr_min r) (N.of_nat (length kvs)) && opt_geN (mr_max r) (N.of_nat (length kvs))
+         | None => true
+         end
+      && forallb (fun kv => ty_ok env t (snd kv)) kvs
   | _, _ => true
   end.
 
@@ -254,6 +262,12 @@ Definition eval_tyc (defined : list Z) (t : tyc) (fv : fvalue) : bool :=
          | Some it => forallb (eval_scalar defined it) vs
          | None => true
          end
+  | CMap mn mx values, FMap kvs =>
+      opt_leN mn (N.of_nat (length kvs)) && opt_geN mx (N.of_nat (length kvs))
+      && match values with
+         | Some vt => forallb (fun kv => eval_scalar defined vt (snd kv)) kvs
+         | None => true
+         end
   | _, FOne v => eval_scalar defined t v
   | _, _ => true
   end.
@@ -267,6 +281,7 @@ Definition populated (o : fout) (fv : fvalue) : bool :=
   | FAbsent => false
   | FOne v => if has_presence o then true else negb (is_zero v)
   | FMany vs => match vs with [] => false | _ => true end
+  | FMap kvs => match kvs with [] => false | _ => true end
   end.
 
 (* Message.Get(field) of an unpopulated field without presence: the zero value *)
@@ -317,6 +332,7 @@ Definition fvalue_typed (d : prop) (fv : fvalue) : bool :=
   | PSingle t, FAbsent => p_opt d || is_msg_ty t
   | PSingle t, FOne v => value_typed t v
   | PArray _ _ t, FMany vs => forallb (value_typed t) vs
+  | PMap _ t, FMap kvs => forallb (fun kv => value_typed t (snd kv)) kvs
   | _, _ => false
   end.
 
